@@ -1,0 +1,138 @@
+//go:build verif
+
+// Contracts for the deductive verifier in /verif (govc). This file contains no code: with the
+// build tag off it is not part of the package, with it on it adds nothing to the build.
+package indexer
+
+//@ import common "github.com/ethereum/go-ethereum/common"
+
+// ---------------------------------------------------------------------------------------------
+// Key layout (C14). Two disjoint key families:
+//   hash key   = 0x01 ++ 32 hash bytes                                   (33 bytes)  -> marshalled TxResult
+//   index key  = 0x02 ++ be64(uint64(block number)) ++ be64(uint64(int64(eth tx index)))   (17 bytes)  -> 32 hash bytes
+// be64 is the big-endian codec of sdk.Uint64ToBigEndian / BigEndianToUint64 (assumed inverse pair, prelude).
+// Injectivity: hashBytes, be64 (be64_inverse) and the two's-complement conversions are injective and bcat is
+// cancellative for fixed-length parts (bcat_split); disjointness: the first byte (1 vs 2) and the length (33 vs 17).
+// ---------------------------------------------------------------------------------------------
+// Go's integer conversions: uint64(x) of a signed value, int64(x) of an unsigned one
+//@ ghost func asU64(v int) int = v < 0 ? v + pow2(64) : v
+//@ ghost func asI64(v int) int = v >= pow2(63) ? v - pow2(64) : v
+//@ ghost func txHashKeyOf(h common.Hash) bytes = bcat(b1(1), hashBytes(h))
+//@ ghost func txIndexKeyOf(n int, i int) bytes = bcat(bcat(b1(2), be64(asU64(n))), be64(asU64(i)))
+
+//@ func TxHashKey(hash common.Hash) []byte
+//@   modifies nothing
+//@   ensures[C14.hash_key_layout] len(result) == 33 && bsame(bytes(result), txHashKeyOf(hash)) && bat(bytes(result), 0) == 1
+//@   ensures[C14.hash_key_fresh] fresh(base(result))
+//@   panics never
+
+//@ func TxIndexKey(blockNumber int64, txIndex int32) []byte
+//@   modifies nothing
+//@   ensures[C14.index_key_layout] len(result) == 17 && bsame(bytes(result), txIndexKeyOf(blockNumber, txIndex)) && bat(bytes(result), 0) == 2
+//@   ensures[C14.index_key_roundtrip] bsame(bsub(bytes(result), 1, 9), be64(asU64(blockNumber))) && asI64(be64val(bsub(bytes(result), 1, 9))) == blockNumber
+//@   ensures[C14.index_key_fresh] fresh(base(result))
+//@   panics never
+
+// parse(TxIndexKey(h, i)) == h follows from index_key_roundtrip: the value computed here for a 17-byte key is exactly
+// asI64(be64val(bsub(key, 1, 9))).
+//@ func parseBlockNumberFromKey(key []byte) (n int64, err error)
+//@   modifies nothing
+//@   ensures[C14.parse_key] (err == nil) == (len(key) == 17) && (err == nil ==> n == asI64(be64val(bsub(bytes(key), 1, 9)))) && (err != nil ==> n == 0)
+//@   panics never
+
+// ---------------------------------------------------------------------------------------------
+// saveTxResult: exactly two batch entries, mutually inverse (hash key -> record, (height, eth index) key -> hash).
+// ---------------------------------------------------------------------------------------------
+//@ import codec "github.com/cosmos/cosmos-sdk/codec"
+//@ import proto "github.com/cosmos/gogoproto/proto"
+//@ import sdkdb "github.com/cosmos/cosmos-db"
+//@ import evertypes "github.com/EscanBE/evermint/v12/types"
+
+// protobuf encoding of a TxResult record (types/indexer.pb.go): uninterpreted, injective (decoder = inverse)
+//@ ghost func txResultEnc(height int, txIndex int, ethTxIndex int, failed bool) bytes
+//@ ghost func txResultDecHeight(b bytes) int
+//@ ghost func txResultDecTxIndex(b bytes) int
+//@ ghost func txResultDecEthTxIndex(b bytes) int
+//@ ghost func txResultDecFailed(b bytes) bool
+//@ axiom tx_result_codec: forall h int, t int, e int, f bool :: txResultDecHeight(txResultEnc(h, t, e, f)) == h && txResultDecTxIndex(txResultEnc(h, t, e, f)) == t && txResultDecEthTxIndex(txResultEnc(h, t, e, f)) == e && txResultDecFailed(txResultEnc(h, t, e, f)) == f
+
+// codec.ProtoCodec (cosmos-sdk v0.50.10 codec/proto_codec.go) on the TxResult record — trusted summary of gogoproto:
+// MustMarshal returns a non-nil slice ([]byte{} when every field is zero) and cannot fail for four scalar fields.
+//@ func (c codec.BinaryCodec) MustMarshal(o proto.Message) (bz []byte)
+//@   assumed
+//@   requires typeof(o) == type(*evertypes.TxResult)
+//@   modifies nothing
+//@   ensures base(bz) != 0 && fresh(base(bz))
+//@   ensures typeof(o) == type(*evertypes.TxResult) ==> bytes(bz) == txResultEnc(unbox(o, type(*evertypes.TxResult)).Height, unbox(o, type(*evertypes.TxResult)).TxIndex, unbox(o, type(*evertypes.TxResult)).EthTxIndex, unbox(o, type(*evertypes.TxResult)).Failed)
+//@   panics never
+
+//@ func saveTxResult(codec codec.Codec, batch sdkdb.Batch, txHash common.Hash, txResult *evertypes.TxResult) (err error)
+//@   requires codec != nil && batch != nil && txResult != nil
+//@   modifies batchLen[payload(batch)], batchKey[payload(batch)], batchVal[payload(batch)]
+//@   ensures[C14.save_two_entries] err == nil ==> (batchLen[payload(batch)] == old(batchLen[payload(batch)]) + 2 && batchKey[payload(batch)] == old(batchKey[payload(batch)])[old(batchLen[payload(batch)]) := txHashKeyOf(txHash)][old(batchLen[payload(batch)]) + 1 := txIndexKeyOf(txResult.Height, txResult.EthTxIndex)] && batchVal[payload(batch)] == old(batchVal[payload(batch)])[old(batchLen[payload(batch)]) := txResultEnc(txResult.Height, txResult.TxIndex, txResult.EthTxIndex, txResult.Failed)][old(batchLen[payload(batch)]) + 1 := hashBytes(txHash)])
+//@   ensures[C14.save_fails_only_closed] (err == nil) == batchOpen[payload(batch)]
+//@   ensures[C14.save_error_keeps_prefix] err != nil ==> (batchLen[payload(batch)] == old(batchLen[payload(batch)]) && batchKey[payload(batch)] == old(batchKey[payload(batch)]) && batchVal[payload(batch)] == old(batchVal[payload(batch)]))
+//@   panics never
+
+//@ import cmttypes "github.com/cometbft/cometbft/types"
+//@ import abci "github.com/cometbft/cometbft/abci/types"
+//@ import sdk "github.com/cosmos/cosmos-sdk/types"
+//@ import evmtypes "github.com/EscanBE/evermint/v12/x/evm/types"
+
+// isEthTx = app/antedl/utils.IsEthereumTx: trusted summary of code outside this check's packages (the ante helpers are
+// decided with C06/C07): an Ethereum-shaped transaction carries exactly one message, a *MsgEthereumTx
+// (single(tx), vocabulary of prelude/40_ante_tx.spec).
+// ethShapedBytes(b): the transaction encoded by b is Ethereum-shaped — a function of the bytes (decoding is deterministic
+// and decoded transactions are not mutated; txSrc, prelude/44_misc_client.spec, remembers the source of a decoded object)
+//@ ghost func ethShapedBytes(b bytes) bool
+//@ func isEthTx(tx sdk.Tx) bool
+//@   assumed
+//@   modifies nothing
+//@   ensures result == ethShapedBytes(txSrc[payload(tx)])
+//@   ensures result ==> (tx != nil && single(payload(tx)))
+//@   panics never
+
+// ---------------------------------------------------------------------------------------------
+// IndexBlock (C14): everything is staged in ONE batch; the database changes only through that batch's single Write
+// (atomic by the assumed contract of cosmos-db) and is untouched on every error return.
+// ---------------------------------------------------------------------------------------------
+// ixElig(block, j): the j-th transaction of the block is indexed (gets an eth tx index). The FIRST precondition of
+// IndexBlock is a definition: it pins this otherwise uninterpreted name to the eligibility rule, written over the inputs
+// (it does not restrict the inputs: such a function exists for every block and every result list):
+//   not dropped before the ante handler, decodable, Ethereum-shaped, and its events parse (no malformed index attribute).
+// ixCountTo(block, n) = number of eligible transactions among the first n (defined by its recurrence: the two axioms are
+// the definition by recursion on n of a total function; they assume nothing about the program).
+//@ ghost func ixElig(b ref, j int) bool
+//@ ghost func ixCountTo(b ref, n int) int
+//@ axiom ix_count_zero: forall b ref, n int :: {ixCountTo(b, n)} n <= 0 ==> ixCountTo(b, n) == 0
+//@ axiom ix_count_step: forall b ref, n int :: {ixCountTo(b, n + 1)} n >= 0 ==> ixCountTo(b, n + 1) == ixCountTo(b, n) + (ixElig(b, n) ? 1 : 0)
+
+// the m-th staged record (batch entries 2m and 2m+1): hash key -> TxResult{height, tx index, eth index, failed} and
+// (height, eth index) key -> hash, mutually inverse; indices within the given bounds
+//@ ghost func ixRecordOk(keys map[int]bytes, vals map[int]bytes, m int, height int, maxTxIndex int, ethBound int) bool = txResultDecHeight(vals[2 * m]) == height && 0 <= txResultDecTxIndex(vals[2 * m]) && txResultDecTxIndex(vals[2 * m]) <= maxTxIndex && 0 <= txResultDecEthTxIndex(vals[2 * m]) && txResultDecEthTxIndex(vals[2 * m]) < ethBound && txResultDecEthTxIndex(vals[2 * m]) <= txResultDecTxIndex(vals[2 * m]) && keys[2 * m + 1] == txIndexKeyOf(height, txResultDecEthTxIndex(vals[2 * m])) && keys[2 * m] == txHashKeyOf(hashOfBytes(vals[2 * m + 1]))
+
+//@ func (kv *KVIndexer) IndexBlock(block *cmttypes.Block, txResults []*abci.ExecTxResult) (err error)
+//@   requires kv != nil && block != nil && kv.db != nil && kv.mu != nil && kv.logger != nil && kv.clientCtx.TxConfig != nil && kv.clientCtx.Codec != nil
+//@   requires forall j int :: {ixElig(block, j)} (0 <= j && j < len(txResults)) ==> ixElig(block, j) == (!(txResults[j].Code != 0 && !(exists k int :: {txResults[j].Events[k].Type} 0 <= k && k < len(txResults[j].Events) && txResults[j].Events[k].Type == evmtypes.EventTypeEthereumTx)) && txDecodes(kv.clientCtx.TxConfig.TxDecoder(), bytes(block.Data.Txs[j])) && ethShapedBytes(bytes(block.Data.Txs[j])) && !(exists k int, a int :: {attrBadIndex(txResults[j].Events[k].Type, txResults[j].Events[k].Attributes[a].Key, txResults[j].Events[k].Attributes[a].Value)} 0 <= k && k < len(txResults[j].Events) && 0 <= a && a < len(txResults[j].Events[k].Attributes) && attrBadIndex(txResults[j].Events[k].Type, txResults[j].Events[k].Attributes[a].Key, txResults[j].Events[k].Attributes[a].Value)))
+//@   requires len(txResults) == len(block.Data.Txs) && len(txResults) < pow2(31)
+//@   requires forall j int :: (0 <= j && j < len(txResults)) ==> txResults[j] != nil
+//@   modifies dbHas[payload(kv.db)], dbVal[payload(kv.db)], kv.lastRequestIndexedBlock, batchOpen, batchLen, batchKey, batchVal, txSrc
+//@   ensures[C14.error_writes_nothing] err != nil ==> (dbHas[payload(kv.db)] == old(dbHas[payload(kv.db)]) && dbVal[payload(kv.db)] == old(dbVal[payload(kv.db)]) && kv.lastRequestIndexedBlock == old(kv.lastRequestIndexedBlock))
+//@   ensures[C14.last_requested] err == nil ==> kv.lastRequestIndexedBlock == max(old(kv.lastRequestIndexedBlock), block.Header.Height)
+//@   ensures[C14.single_batch] err == nil ==> (exists b ref :: fresh(b) && dbHas[payload(kv.db)] == batchApplyHas(old(dbHas[payload(kv.db)]), batchKey[b], batchLen[b]) && dbVal[payload(kv.db)] == batchApplyVal(old(dbVal[payload(kv.db)]), batchKey[b], batchVal[b], batchLen[b]))
+//@   ensures[C14.records] err == nil ==> (exists b ref :: fresh(b) && dbVal[payload(kv.db)] == batchApplyVal(old(dbVal[payload(kv.db)]), batchKey[b], batchVal[b], batchLen[b]) && batchLen[b] % 2 == 0 && batchLen[b] <= 2 * len(block.Data.Txs) && (forall m int :: (0 <= m && 2 * m < batchLen[b]) ==> (ixRecordOk(batchKey[b], batchVal[b], m, block.Header.Height, len(block.Data.Txs) - 1, len(block.Data.Txs)) && (txResults[txResultDecTxIndex(batchVal[b][2 * m])].Code != 0 ==> txResultDecFailed(batchVal[b][2 * m])))) && (forall m1 int, m2 int :: (0 <= m1 && m1 < m2 && 2 * m2 < batchLen[b]) ==> (txResultDecEthTxIndex(batchVal[b][2 * m1]) < txResultDecEthTxIndex(batchVal[b][2 * m2]) && txResultDecTxIndex(batchVal[b][2 * m1]) < txResultDecTxIndex(batchVal[b][2 * m2]))))
+//@   ensures[C14.eth_index_is_count] err == nil ==> (exists b ref :: fresh(b) && dbVal[payload(kv.db)] == batchApplyVal(old(dbVal[payload(kv.db)]), batchKey[b], batchVal[b], batchLen[b]) && (forall m int :: (0 <= m && 2 * m < batchLen[b]) ==> (ixElig(block, txResultDecTxIndex(batchVal[b][2 * m])) && txResultDecEthTxIndex(batchVal[b][2 * m]) == ixCountTo(block, txResultDecTxIndex(batchVal[b][2 * m])))))
+//@   ensures[C14.other_batches_untouched] forall r ref :: !fresh(r) ==> (batchOpen[r] == old(batchOpen[r]) && batchLen[r] == old(batchLen[r]) && batchKey[r] == old(batchKey[r]) && batchVal[r] == old(batchVal[r]))
+//@   panics any
+//@   at call types.Tx.GetMsgs@1 assert[C14.eligible_when_indexed] ixElig(block, txIndex)
+//@ loop 1
+//@   invariant[C14.loop_bounds] -1 <= rangeindex && rangeindex < len(block.Data.Txs) && 0 <= ethTxIndex && ethTxIndex <= rangeindex + 1
+//@   invariant[C14.loop_one_open_batch] batch != nil && fresh(payload(batch)) && batchOpen[payload(batch)] && batchDbOf(payload(batch)) == payload(kv.db)
+//@   invariant[C14.loop_db_untouched] dbHas[payload(kv.db)] == old(dbHas[payload(kv.db)]) && dbVal[payload(kv.db)] == old(dbVal[payload(kv.db)])
+//@   invariant[C14.loop_other_batches] forall r ref :: !fresh(r) ==> (batchOpen[r] == old(batchOpen[r]) && batchLen[r] == old(batchLen[r]) && batchKey[r] == old(batchKey[r]) && batchVal[r] == old(batchVal[r]))
+//@   invariant[C14.loop_batch_pairs] batchLen[payload(batch)] % 2 == 0 && 0 <= batchLen[payload(batch)] && batchLen[payload(batch)] <= 2 * ethTxIndex
+//@   invariant[C14.loop_records] forall m int :: (0 <= m && 2 * m < batchLen[payload(batch)]) ==> (ixRecordOk(batchKey[payload(batch)], batchVal[payload(batch)], m, block.Header.Height, rangeindex, ethTxIndex) && (txResults[txResultDecTxIndex(batchVal[payload(batch)][2 * m])].Code != 0 ==> txResultDecFailed(batchVal[payload(batch)][2 * m])))
+//@   invariant[C14.loop_records_ordered] forall m1 int, m2 int :: (0 <= m1 && m1 < m2 && 2 * m2 < batchLen[payload(batch)]) ==> (txResultDecEthTxIndex(batchVal[payload(batch)][2 * m1]) < txResultDecEthTxIndex(batchVal[payload(batch)][2 * m2]) && txResultDecTxIndex(batchVal[payload(batch)][2 * m1]) < txResultDecTxIndex(batchVal[payload(batch)][2 * m2]))
+//@   invariant[C14.loop_eth_index_is_count] ethTxIndex == ixCountTo(block, rangeindex + 1)
+//@   invariant[C14.loop_records_counted] forall m int :: (0 <= m && 2 * m < batchLen[payload(batch)]) ==> (ixElig(block, txResultDecTxIndex(batchVal[payload(batch)][2 * m])) && txResultDecEthTxIndex(batchVal[payload(batch)][2 * m]) == ixCountTo(block, txResultDecTxIndex(batchVal[payload(batch)][2 * m])))
+//@   invariant[C14.loop_tx_src_frame] forall r ref :: !fresh(r) ==> txSrc[r] == old(txSrc[r])
